@@ -137,6 +137,42 @@ ApiFails(ev, before) ==
     (IF (valid => ev.outcome = "ok") /\ (ev.pw # [i \in 1..n |-> PW(exp.cells[i])] \/ ev.ph # [i \in 1..n |-> PH(exp.cells[i])])
      THEN {F_("C09", <<"placed sizes of the state defined by the calls", ev.kind>>, "api-placed-size")} ELSE {})
 
+---------------------------------------------------------------------------
+(* The documented ranges of a whole parameter set (messages of the check() *)
+(* functions / coloquinte.hpp).  Real-valued fields are logged as a code   *)
+(* relative to their range: "b" below, "lo" at the lower bound, "in"       *)
+(* inside, "hi" at the upper bound, "a" above; integer fields by value.    *)
+\* inclusive bounds: [lower included, upper included]; fields absent from the table have both bounds included
+ExclusiveLo == {"penalty.initialValue", "penalty.updateFactor", "global.penaltyUpdateDistance"}
+ExclusiveHi == {"penalty.updateFactor"}
+RealFieldOK(name, code) == code = "in" \/ (code = "lo" /\ name \notin ExclusiveLo) \/ (code = "hi" /\ name \notin ExclusiveHi)
+ParamsValid(codes, i) ==
+    /\ \A name \in DOMAIN codes : RealFieldOK(name, codes[name])
+    \* rough legalization
+    /\ i.nbSteps >= 0
+    /\ i.lineSize >= 1 /\ i.diagSize >= 1 /\ i.squareSize >= 1
+    /\ i.lineOverlap >= 1 /\ i.diagOverlap >= 1 /\ i.squareOverlap >= 1
+    /\ i.lineSize <= 64 /\ i.diagSize <= 64 /\ i.squareSize <= 8
+    /\ (i.lineSize >= 2 \/ i.diagSize >= 2 \/ i.squareSize >= 2 \/ (i.uni1d /\ i.roughL1))
+    /\ (i.lineSize > 1 => i.lineOverlap < i.lineSize)
+    /\ (i.diagSize > 1 => i.diagOverlap < i.diagSize)
+    /\ (i.squareSize > 1 => i.squareOverlap < i.squareSize)
+    \* global loop and continuous model
+    /\ i.maxNbSteps >= 0 /\ i.nbInitialSteps >= 0 /\ i.nbInitialSteps < i.maxNbSteps
+    /\ i.stepsBeforeRough >= 1 /\ i.cgSteps >= 1
+    \* legalization and detailed placement
+    /\ i.legL1
+    /\ i.nbPasses >= 0 /\ i.lsNeighbours >= 0 /\ i.lsRows >= 0 /\ i.shiftNbRows >= 1 /\ i.shiftMaxNbCells >= 0
+    /\ i.reorderingNbRows >= 1 /\ i.reorderingMaxNbCells >= 0
+ParamSetFails(ev) ==
+    LET valid == ParamsValid(ev.codes, ev.ints) IN
+    (IF valid /\ ev.outcome # "ok" THEN {F_("C19", <<"a parameter set inside every documented range was rejected", ev.what>>, "paramset-valid-rejected")} ELSE {}) \cup
+    (IF ~valid /\ ev.outcome = "ok" THEN {F_("C19", <<"a parameter set outside a documented range was accepted", ev.codes, ev.ints>>, "paramset-invalid-accepted")} ELSE {}) \cup
+    (IF ev.outcome = "error" /\ ~ev.call.rejected
+     THEN {F_("C19", <<"rejected parameters accepted by a placement call, or callbacks ran", ev.call.stage, ev.call.callbacks>>, "reject-late")} ELSE {}) \cup
+    (IF ev.outcome = "error" /\ ~ev.call.same
+     THEN {F_("C19", <<"call with rejected parameters modified the circuit", ev.call.stage>>, "reject-modified")} ELSE {})
+
 \* callback grammars
 RECURSIVE AllIn(_, _)
 AllIn(s, S) == \A k \in 1..Len(s) : s[k] \in S
